@@ -73,6 +73,39 @@ def search(rep: C.Report, tier: str, broken):
                 if bad:
                     rep.violation(f"results are not covariant under the unit factor {u}: {bad}", dict(info, differing=bad),
                                   finding_key=f"C07:{kind}:{','.join(sorted(bad))}")
+    # the whole pipeline through WallGoManager (lengths entered in units of 1/Tnucl: manager.py buildGrid/buildEOM/setupWallSolver)
+    import manager_common as MC
+
+    def mrun(u):
+        m = MC.new_manager(20, 1e-3, u=u)
+        res = m.solveWall(MC.settings())
+        Tn = 1.15 * u
+        hy = m.hydrodynamics
+        ws = m.setupWallSolver(MC.settings())
+        return {"vw": res.wallVelocity, "success": res.success, "type": str(res.solutionType), "vLTE": float(m.wallSpeedLTE()), "vJ": float(hy.vJ),
+                "Tplus/Tn": res.temperaturePlus / Tn, "Tminus/Tn": res.temperatureMinus / Tn, "widths*Tn": (np.asarray(res.wallWidths) * Tn).tolist(),
+                "gridTail*Tn": float(ws.grid.tailLengthInside) * Tn, "gridThickness*Tn": float(ws.grid.wallThickness) * Tn,
+                "initialWallThickness*Tn": float(ws.initialWallThickness) * Tn, "meanFreePath*Tn": float(ws.eom.meanFreePathScale) * Tn,
+                "momentumFalloff/Tn": float(ws.grid.momentumFalloffT) / Tn}
+    mbase = mrun(1.0)
+    for u in ((1e-2, 1e2) if tier == "quick" else (1e-2, 0.2, 13.0, 1e2)):
+        got = mrun(u)
+        rep.case(key=("manager", u))
+        rep.count("manager runs")
+        bad = []
+        for q, t in (("vJ", 1e-6), ("vLTE", 2e-5), ("Tplus/Tn", 1e-3), ("Tminus/Tn", 1e-3), ("gridTail*Tn", 1e-12), ("gridThickness*Tn", 1e-12),
+                     ("initialWallThickness*Tn", 1e-12), ("meanFreePath*Tn", 1e-12), ("momentumFalloff/Tn", 1e-12)):
+            if abs(mbase[q] - got[q]) > t * max(abs(mbase[q]), abs(got[q]), 1e-300):
+                bad.append(q)
+        if mbase["success"] != got["success"] or mbase["type"] != got["type"] or mbase["vw"] is None or got["vw"] is None \
+                or abs(mbase["vw"] - got["vw"]) > 2e-3:
+            bad.append("vw")
+        elif max(abs(a - b) for a, b in zip(mbase["widths*Tn"], got["widths*Tn"])) > 0.03 * max(mbase["widths*Tn"]):
+            bad.append("widths*Tn")
+        if bad:
+            rep.violation(f"WallGoManager results are not covariant under the unit factor {u}: {bad}",
+                          {"unit_factor": u, "base": mbase, "scaled": got, "differing": bad,
+                           "how": "harness/manager_common.new_manager(20, 1e-3, u=u).solveWall(settings())"}, finding_key=f"C07:manager:{','.join(sorted(bad))}")
     # formula level on real objects: thermodynamics and hydrodynamics of rescaled models agree pointwise by the proved weights
     import models
     for u in ((1e-2, 1e2) if tier == "quick" else (1e-2, 0.3, 17.0, 1e2)):
